@@ -52,6 +52,8 @@ type Style struct {
 	TightAnn         bool              // no blank between a value and the annotation that follows it
 	TightComments    bool              // end-of-line user comments start right after the value (no blank), every other one as a ### block ###
 	SplitAnn         int               // >0: every SplitAnn-th node with two rules or more (or rules and a note) gets two annotations: a multi-line one closing on the next line and a second one starting on that closing line
+	KeyComments      int               // >0: every KeyComments-th property gets a user comment between its key and its colon or between the colon and the value (### c ### on the line, or # c up to the line end with the rest on the next line)
+	CloseLate        int               // >0: every CloseLate-th multi-line annotation of a value that a sibling follows closes on the next line, and the sibling starts on that closing line
 	RuleOrder        func(n int) []int // permutation of rule indexes (nil = as written)
 	// Per-annotation override hook (nil = use the fields above)
 	Pick func(label string, n int) int
@@ -80,6 +82,10 @@ type printer struct {
 	afterArr bool // a non-empty array was closed and no value has begun since (annotations are not taken there)
 	ann      int  // annotation counter (MixedAnn)
 	inMulti  bool // inside a /* */ annotation
+	kc       int  // property counter (KeyComments)
+	cl       int  // annotation counter (CloseLate)
+	hasNext  bool // the value being written is followed by a sibling
+	contLine bool // the last annotation closed at the start of a fresh line: the next sibling continues on it
 }
 
 // PrintSchema renders n and fills Begin/End/AnnBegin/KeyBegin/KeyEnd and rule offsets.
@@ -108,7 +114,7 @@ func (p *printer) leadingComments(level int) {
 		if p.cc%2 == 1 {
 			p.indent(level)
 			// every third one is an empty comment: "#" directly followed by the line end
-			p.w([]string{"# user comment", "#", "# "}[(p.cc/2)%3])
+			p.w([]string{"# user comment", "#", "# ", "######"}[(p.cc/2)%4])
 			p.w(p.st.NL)
 		}
 		if p.st.Comments >= 2 && p.cc%3 == 0 {
@@ -187,7 +193,7 @@ func nonEmptyArray(n *ref.SNode) bool { return n.Kind == ref.SArr && len(n.Items
 // strayAfterBrace writes a note after the closing brace of a non-empty object: no value starts on
 // that line, so it is nobody's note.
 func (p *printer) strayAfterBrace() {
-	if p.st.StrayNotes > 0 && !p.afterArr {
+	if p.st.StrayNotes > 0 {
 		p.sn++
 		if p.sn%p.st.StrayNotes == 0 {
 			p.w(" // stray after brace")
@@ -196,13 +202,16 @@ func (p *printer) strayAfterBrace() {
 }
 
 func (p *printer) eolComment() {
+	if p.contLine {
+		return // the sibling follows on this line
+	}
 	if p.st.Comments >= 3 {
 		p.cc++
 		if p.cc%2 == 0 || p.st.Comments == 4 {
 			if p.st.TightComments {
-				p.w([]string{"# eol comment", "### block c ###", "#", "###c###"}[p.cc%4])
+				p.w([]string{"# eol comment", "### block c ###", "#", "###c###", "######", "###### # x"}[p.cc%6])
 			} else {
-				p.w([]string{" # eol comment", " #", " # eol comment"}[p.cc%3])
+				p.w([]string{" # eol comment", " #", " # eol comment", " ######", " ###### ### c ###"}[p.cc%5])
 			}
 		}
 	}
@@ -295,6 +304,16 @@ func (p *printer) annotation(n *ref.SNode, level int) {
 		p.w(note)
 	}
 	if multi {
+		if p.st.CloseLate > 0 && p.hasNext {
+			p.cl++
+			if p.cl%p.st.CloseLate == 0 {
+				p.w(p.st.NL)
+				p.indent(level)
+				p.w("*/")
+				p.contLine = true
+				return
+			}
+		}
 		p.w(" */")
 	}
 }
@@ -319,11 +338,15 @@ func (p *printer) ruleObject(rules []ref.SRule, spread bool, level int) {
 		} else if k > 0 {
 			p.w(" ")
 		}
+		blockAt := -1
 		if p.st.BlockInRules > 0 && !p.inMulti { // (inside /* */ annotations the library takes no user comments)
 			p.br++
 			if p.br%p.st.BlockInRules == 0 {
-				p.w("### c ### ")
+				blockAt = (p.br / p.st.BlockInRules) % 3 // before the name, between name and colon, between colon and value
 			}
+		}
+		if blockAt == 0 {
+			p.w([]string{"### c ### ", "###### "}[(p.br/p.st.BlockInRules/3)%2])
 		}
 		r.Begin = len(p.b)
 		if p.st.QuoteNames || r.Quoted {
@@ -334,10 +357,23 @@ func (p *printer) ruleObject(rules []ref.SRule, spread bool, level int) {
 		if p.st.NameGap > 0 {
 			p.ng++
 			if p.ng%p.st.NameGap == 0 {
-				p.w([]string{" ", "\t", " \t"}[(p.ng/p.st.NameGap)%3])
+				switch g := (p.ng / p.st.NameGap) % 4; {
+				case g == 3 && p.inMulti:
+					// a line break between the name and its colon (multi-line annotations only)
+					p.w(p.st.NL)
+					p.indent(level + 3)
+				default:
+					p.w([]string{" ", "\t", " \t", "  "}[g])
+				}
 			}
 		}
+		if blockAt == 1 {
+			p.w(" ### c ### ")
+		}
 		p.w(":")
+		if blockAt == 2 {
+			p.w(" ### c ###")
+		}
 		brk := false
 		if p.st.ValueNextLine > 0 && p.inMulti {
 			p.vn++
@@ -454,6 +490,7 @@ func (p *printer) node(n *ref.SNode, level int, comma bool) {
 	n.Begin = len(p.b)
 	p.afterArr = false
 	n.NoteDetached = false
+	p.hasNext = comma && (n.Kind == ref.SLit || n.Kind == ref.SRef)
 	c := ""
 	if comma {
 		c = ","
@@ -512,6 +549,8 @@ func (p *printer) node(n *ref.SNode, level int, comma bool) {
 				if pv := n.Props[i-1].Val; pv.Kind == ref.SArr && len(pv.Items) > 0 && (pr.Val.Kind == ref.SObj || pr.Val.Kind == ref.SArr) && !p.oneLine(pr.Val) {
 					JoinsArrayThenContainer++
 				}
+			} else if i > 0 && p.contLine {
+				p.w(" ")
 			} else {
 				p.w(p.st.NL)
 				p.leadingComments(level + 1)
@@ -520,6 +559,7 @@ func (p *printer) node(n *ref.SNode, level int, comma bool) {
 				}
 				p.indent(level + 1)
 			}
+			p.contLine = false
 			pr.KeyBegin = len(p.b)
 			p.w(pr.KeyTok)
 			pr.KeyEnd = len(p.b) - 1
@@ -535,7 +575,30 @@ func (p *printer) node(n *ref.SNode, level int, comma bool) {
 			case 3:
 				p.w("  ")
 			}
+			kcAt := -1
+			if p.st.KeyComments > 0 {
+				p.kc++
+				if p.kc%p.st.KeyComments == 0 {
+					kcAt = (p.kc / p.st.KeyComments) % 4
+				}
+			}
+			switch kcAt {
+			case 0:
+				p.w(" ### c ###")
+			case 3:
+				p.w(" # c")
+				p.w(p.st.NL)
+				p.indent(level + 2)
+			}
 			p.w(": ")
+			switch kcAt {
+			case 1:
+				p.w([]string{"### c ### ", "###### "}[(p.kc/p.st.KeyComments/4)%2]) // (the second one is an empty block comment)
+			case 2:
+				p.w("# c")
+				p.w(p.st.NL)
+				p.indent(level + 2)
+			}
 			p.node(pr.Val, level+1, i < len(n.Props)-1)
 		}
 		p.w(p.st.NL)
@@ -547,9 +610,7 @@ func (p *printer) node(n *ref.SNode, level int, comma bool) {
 		n.End = len(p.b)
 		p.w("}")
 		p.w(c)
-		if !nonEmptyArray(n.Props[len(n.Props)-1].Val) {
-			p.strayAfterBrace()
-		}
+		p.strayAfterBrace()
 	case ref.SArr:
 		p.w("[")
 		if len(n.Items) == 0 {
@@ -565,14 +626,22 @@ func (p *printer) node(n *ref.SNode, level int, comma bool) {
 		p.eolComment()
 		p.w(p.st.NL)
 		for i, it := range n.Items {
-			p.leadingComments(level + 1)
-			if i == 0 || !nonEmptyArray(n.Items[i-1]) {
-				p.stray(level + 1)
+			if i > 0 && p.contLine {
+				p.w(" ")
+			} else {
+				if i > 0 {
+					p.w(p.st.NL)
+				}
+				p.leadingComments(level + 1)
+				if i == 0 || !nonEmptyArray(n.Items[i-1]) {
+					p.stray(level + 1)
+				}
+				p.indent(level + 1)
 			}
-			p.indent(level + 1)
+			p.contLine = false
 			p.node(it, level+1, i < len(n.Items)-1)
-			p.w(p.st.NL)
 		}
+		p.w(p.st.NL)
 		p.leadingComments(level)
 		if !nonEmptyArray(n.Items[len(n.Items)-1]) {
 			p.stray(level)
